@@ -168,7 +168,11 @@ func newCINode(e *env, scen string, pyramidReply [][]byte) *ciNode {
 // settle: a no-op request through the discover worker's channel; returns once everything queued before it was executed
 func (n *ciNode) settle(root boson.Address) {
 	done := make(chan struct{})
-	go func() { n.ci.GetChunkInfoDiscoverOverlays(root); n.ci.DelDiscover(boson.NewAddress([]byte{0xfa, 0xfb})); close(done) }()
+	go func() {
+		n.ci.GetChunkInfoDiscoverOverlays(root)
+		n.ci.DelDiscover(boson.NewAddress([]byte{0xfa, 0xfb}))
+		close(done)
+	}()
 	select {
 	case <-done:
 	case <-time.After(3 * time.Second):
@@ -185,6 +189,7 @@ type ciMsg struct {
 	Req      string  `json:"req"`
 	Presence []ciKV  `json:"presence,omitempty"`
 	Pyramid  []ciPyr `json:"pyramid,omitempty"` // chunkinfo.pyramid: what the relay target answers
+	Pre      []ciMsg `json:"pre,omitempty"`     // earlier ChunkInfoResp messages of the same peer
 }
 type ciPyr struct {
 	Hash  string `json:"hash"`
@@ -200,6 +205,18 @@ func rawChunks(c *Case) [][]byte {
 	return ch
 }
 
+func ciRespBytes(m *ciMsg) []byte {
+	pm := &cpb.ChunkInfoResp{RootCid: unhex(m.Root), Target: unhex(m.Target), Req: unhex(m.Req)}
+	if m.Presence != nil {
+		pm.Presence = map[string][]byte{}
+		for _, kv := range m.Presence {
+			pm.Presence[string(unhex(kv.K))] = unhex(kv.V)
+		}
+	}
+	b, _ := proto.Marshal(pm)
+	return b
+}
+
 func runCIResp(e *env, c *Case) Obs {
 	f := e.file()
 	n := newCINode(e, c.Scen, nil)
@@ -209,22 +226,25 @@ func runCIResp(e *env, c *Case) Obs {
 	} else {
 		var m ciMsg
 		_ = json.Unmarshal(c.Msg, &m)
-		pm := &cpb.ChunkInfoResp{RootCid: unhex(m.Root), Target: unhex(m.Target), Req: unhex(m.Req)}
-		if m.Presence != nil {
-			pm.Presence = map[string][]byte{}
-			for _, kv := range m.Presence {
-				pm.Presence[string(unhex(kv.K))] = unhex(kv.V)
+		for pi := range m.Pre {
+			pr := driveInbound(n.ci.Protocol(), "chunkinforesp", e.peer.overlay, false, [][]byte{frame(ciRespBytes(&m.Pre[pi]))}, 20*time.Second)
+			n.settle(f.root)
+			if pr.panicked || pr.hang {
+				return Obs{Panic: pr.panicked, PMsg: pr.pmsg, Hang: pr.hang, Where: "handler(pre)"}
 			}
 		}
-		b, _ := proto.Marshal(pm)
-		chunks = [][]byte{frame(b)}
+		chunks = [][]byte{frame(ciRespBytes(&m))}
 	}
 	res := driveInbound(n.ci.Protocol(), "chunkinforesp", e.peer.overlay, false, chunks, 20*time.Second)
 	n.settle(f.root)
 	o := Obs{Panic: res.panicked, PMsg: res.pmsg, Hang: res.hang, Where: "handler", Err: errBit(res.err)}
 	if !o.Panic && !o.Hang {
 		// deferred use of the state the message created (retrieval asks where a chunk can be fetched)
-		r := guardClient(5*time.Second, func() error { n.ci.GetChunkInfo(f.root, f.fileRef); n.ci.GetChunkInfoDiscoverOverlays(f.root); return nil })
+		r := guardClient(5*time.Second, func() error {
+			n.ci.GetChunkInfo(f.root, f.fileRef)
+			n.ci.GetChunkInfoDiscoverOverlays(f.root)
+			return nil
+		})
 		if r.panicked {
 			o.Panic, o.PMsg, o.Where = true, r.pmsg, "deferred"
 		}
@@ -283,6 +303,9 @@ func coqCIResp(c *Case, o *Obs) (string, bool) {
 	_ = json.Unmarshal(c.Msg, &m)
 	n, p := idents()
 	f := newEnvFileInfo()
+	if len(m.Pre) > 0 {
+		return "", true // queue / on-file state after earlier responses: oracle only
+	}
 	tot := len(m.Root) + len(m.Target) + len(m.Req)
 	var kvs []string
 	for _, kv := range m.Presence {
@@ -396,6 +419,26 @@ func genChunkinfo(run *hx.Run, add func(*Case)) {
 		mk("chunkinfo.resp", sc, "target-short", &ciMsg{Root: root, Target: "0102", Req: self, Presence: []ciKV{{K: hx.Hex([]byte("0102")), V: "01"}}})
 		mk("chunkinfo.resp", sc, "req-other-node", &ciMsg{Root: root, Target: peer, Req: peer, Presence: []ciKV{{K: hx.Hex([]byte("zz")), V: ""}}})
 		mk("chunkinfo.resp", sc, "req-empty", &ciMsg{Root: root, Target: peer, Req: "", Presence: []ciKV{{K: hx.Hex([]byte("zz")), V: ""}}})
+	}
+	// ---- SEQUENCES: a first response advertises overlays of mixed length (hex keys of 0, 1, 31, 32, 33 bytes; short
+	// ones prefixes of the long one) with vectors of every size; they enter the discovery queue and are asked in turn;
+	// later responses come "from" those odd overlays
+	long := append(append([]byte{}, p.overlay.Bytes()[:1]...), r.Bytes(32)...)
+	ovs := [][]byte{long[:32], long[:1], long[:31], long, {}}
+	var adv []ciKV
+	for i, o := range ovs {
+		adv = append(adv, ciKV{K: hx.Hex([]byte(hx.Hex(o))), V: []string{"05", "", "0500", "ff", "01"}[i]})
+	}
+	adv = append(adv, ciKV{K: peerKey, V: "03"})
+	for _, sc := range []string{"disc", "pyramid"} {
+		for i, o := range ovs {
+			if !run.Thorough() && i > 1 && r.Intn(2) != 0 {
+				continue
+			}
+			first := ciMsg{Root: root, Target: peer, Req: self, Presence: adv}
+			mk("chunkinfo.resp", sc, "mixed-length-overlays-then-response", &ciMsg{Root: root, Target: hx.Hex(o), Req: self,
+				Presence: []ciKV{{K: hx.Hex([]byte(hx.Hex(o))), V: []string{"07", "", "0000"}[r.Intn(3)]}, {K: hx.Hex([]byte(hx.Hex(ovs[(i+1)%5]))), V: "01"}}, Pre: []ciMsg{first}})
+		}
 	}
 	vresp, _ := proto.Marshal(&cpb.ChunkInfoResp{RootCid: f.root, Target: p.overlay.Bytes(), Req: n.overlay.Bytes(), Presence: map[string][]byte{p.overlay.String(): {5}}})
 	for _, chunks := range rawStreams(r, vresp, run.N(15, 300)) {
